@@ -790,6 +790,54 @@ theorem trim_slice_is_code (a b : Nat) (l : List ℚ) :
   have h2 : (Gen.trimSliceStop a b).toNat = b + 1 := by simp only [Gen.trimSliceStop]; omega
   rw [h1, h2]; rfl
 
+/-- `bin` with ends="inside": the edges / sample points the model uses are those of the source. Trapezoid: first and last edge
+are the first and last centre (`Gen.binInsideEdgeLo/Hi`); Simpson: one quarter point is inserted after the first and one
+before the last point (`Gen.binInsideLo/Hi`, regenerated from the two `np.insert` statements, positions 1 and -1) — shown on
+two and three centres with arbitrary values -/
+theorem bin_inside_points_are_code (c0 c1 c2 : ℚ) :
+    trapzEdges false [c0, c1] = [Gen.binInsideEdgeLo c0, Gen.binMid c0 c1, Gen.binInsideEdgeHi c1] ∧
+    trapzEdges false [c0, c1, c2] = [Gen.binInsideEdgeLo c0, Gen.binMid c0 c1, Gen.binMid c1 c2, Gen.binInsideEdgeHi c2] ∧
+    simpsPoints false [c0, c1] =
+      [c0, Gen.binInsideLo c0 (Gen.binMid c0 c1), Gen.binMid c0 c1, Gen.binInsideHi c1 (Gen.binMid c0 c1), c1] ∧
+    simpsPoints false [c0, c1, c2] =
+      [c0, Gen.binInsideLo c0 (Gen.binMid c0 c1), Gen.binMid c0 c1, c1, Gen.binMid c1 c2,
+       Gen.binInsideHi c2 (Gen.binMid c1 c2), c2] := ⟨rfl, rfl, rfl, rfl⟩
+
+/-- the two inserted Simpson points lie strictly inside the half-interval they split, so the sample grid of ends="inside"
+stays strictly increasing and inside the span of the centres -/
+theorem bin_inside_quarter_points (x0 x1 xl xp : ℚ) (h0 : x0 < x1) (hl : xp < xl) :
+    x0 < Gen.binInsideLo x0 x1 ∧ Gen.binInsideLo x0 x1 < x1 ∧ xp < Gen.binInsideHi xl xp ∧ Gen.binInsideHi xl xp < xl := by
+  simp only [Gen.binInsideLo, Gen.binInsideHi]
+  refine ⟨by linarith, by linarith, by linarith, by linarith⟩
+
+/-- `pad` places its new samples as the source does: the left block is `np.linspace(ends[0], minwave, nleft)` without its LAST
+point, the right block `np.linspace(maxwave, ends[1], nright)` without its FIRST (`Gen.padLeft*/padRight*`), and the point
+removed from each block is exactly the spectrum's own end sample — so no wavelength is duplicated and none of the new
+points is lost -/
+theorem pad_placement_is_code (e0 e1 mn mx : ℚ) (n : ℕ) (hn : 2 ≤ n) :
+    Gen.padLeftDeleted = -1 ∧ Gen.padRightDeleted = 0 ∧
+    (linspace (Gen.padRightStart e0 e1 mn mx) (Gen.padRightStop e0 e1 mn mx) n).head? = some mx ∧
+    (linspace (Gen.padLeftStart e0 e1 mn mx) (Gen.padLeftStop e0 e1 mn mx) n).getLast? = some mn ∧
+    (linspace (Gen.padLeftStart e0 e1 mn mx) (Gen.padLeftStop e0 e1 mn mx) n).head? = some e0 ∧
+    (linspace (Gen.padRightStart e0 e1 mn mx) (Gen.padRightStop e0 e1 mn mx) n).getLast? = some e1 := by
+  obtain ⟨k, rfl⟩ : ∃ k, n = k + 2 := ⟨n - 2, by omega⟩
+  have hk : ((k + 2 - 1 : ℕ) : ℚ) ≠ 0 := by
+    have : (k + 2 - 1 : ℕ) = k + 1 := by omega
+    rw [this]; exact_mod_cast Nat.succ_ne_zero k
+  have hlast : ∀ a b : ℚ, (linspace a b (k + 2)).getLast? = some b := by
+    intro a b
+    have h1 : ¬ (k + 2 = 1) := by omega
+    simp only [linspace, h1, if_false, List.range_succ, List.map_append, List.map_cons, List.map_nil, List.getLast?_append,
+      List.getLast?_singleton, Option.some_or]
+    congr 1
+    have : ((k + 1 : ℕ) : ℚ) = ((k + 2 - 1 : ℕ) : ℚ) := by congr 1
+    rw [this]; field_simp; ring
+  have hhead : ∀ a b : ℚ, (linspace a b (k + 2)).head? = some a := by
+    intro a b
+    have h1 : ¬ (k + 2 = 1) := by omega
+    simp [linspace, h1, List.range_succ_eq_map]
+  exact ⟨rfl, rfl, hhead _ _, hlast _ _, hhead _ _, hlast _ _⟩
+
 /-- non-vacuity of `append_single_refused`, and the accepted counterpart -/
 example : append ⟨[4], [1]⟩ ⟨[1, 2, 4], [5, 6, 7]⟩ = (⟨[1, 2, 4], [5, 6, 7]⟩, some .valueError) ∧
     append ⟨[5], [1]⟩ ⟨[1, 2, 4], [5, 6, 7]⟩ = (⟨[1, 2, 4, 5], [5, 6, 7, 1]⟩, none) := by
